@@ -792,6 +792,21 @@ func (g *Gen) unop(in *ssa.UnOp) {
 		g.define(in, t)
 		g.assume(g.typeFacts(g.vals[in], in.Type()))
 		g.observe(g.vals[in], in.Type())
+		if gv, ok := in.X.(*ssa.Global); ok && gv.Pkg == g.c.pkg {
+			// a `constmap` of this package: its declared keys are present whenever it is read (the
+			// declaration is itself an obligation, constmap/<var>)
+			for _, cm := range g.c.constMaps {
+				if cm.Var != gv.Name() || !isMap(in.Type()) {
+					continue
+				}
+				dk, _, _ := g.mapKeys(in.Type())
+				for _, ke := range cm.Keys {
+					if k, ok := g.c.constKeyString(ke); ok {
+						g.assume(and(app("distinct", g.vals[in], "0"), app("select", app("select", g.get(g.st, dk), g.vals[in]), g.strLit(k))))
+					}
+				}
+			}
+		}
 		if gv, ok := in.X.(*ssa.Global); ok && gv.Pkg != nil {
 			// trusted facts about a package-level variable of another package (`globalfact time.UTC isUTCLoc`)
 			for _, gf := range g.c.globalFacts {
